@@ -1,14 +1,19 @@
 package c01
 
 import (
+	"bytes"
 	"fmt"
 	"math"
+	"os"
 	"strconv"
 	"strings"
 	"testing"
+	"time"
+	"unicode/utf8"
 
 	"pgregory.net/rapid"
 
+	"verif/internal/docs"
 	"verif/internal/gen"
 	"verif/internal/gt"
 	"verif/internal/h"
@@ -342,5 +347,191 @@ func TestC01FreeFormat(t *testing.T) {
 			}
 			return nt && styled, l
 		},
+	})
+}
+
+// ---------------------------------------------------------------------------------------
+// Text-first direction: any text the parser accepts yields a tree whose written form is a
+// fixed point of parse/write and is read identically by the reference reader.
+
+type TextCase struct {
+	Text []byte `json:"text"`
+	Show string `json:"show,omitempty"`
+}
+
+func checkText(c TextCase) error {
+	if !utf8.Valid(c.Text) || bytes.IndexByte(c.Text, 0) >= 0 || bytes.ContainsRune(c.Text, utf8.RuneError) {
+		return nil // outside the text domain (see DESIGN.md, C01)
+	}
+	t, err := gt.Parse(string(c.Text))
+	if err != nil || t == nil || t.Root() == nil {
+		return nil // rejected input is not this property's subject
+	}
+	if len(t.Root().Neigh()) < 2 {
+		return nil // the property is about trees whose root has >= 2 children ("(A);" is accepted by the parser but out of domain)
+	}
+	w1 := t.Newick()
+	x1, err := gt.Extract(t)
+	if err != nil {
+		return fmt.Errorf("parsed tree not traversable: %v", err)
+	}
+	if why := outOfDomain(x1); why != "" {
+		return nil // lax parsing of malformed text gave a tree outside the property's domain
+	}
+	t2, err := gt.Parse(w1)
+	if err != nil {
+		return fmt.Errorf("parser rejects the text written for a tree it parsed: %v\n input %q\n written %q", err, clip(string(c.Text)), clip(w1))
+	}
+	x2, err := gt.Extract(t2)
+	if err != nil {
+		return err
+	}
+	// what the text can show of the first tree must come back unchanged
+	if d := ref.Diff(gt.Printable(x1), gt.Printable(x2)); d != "" {
+		return fmt.Errorf("write/parse changed the tree: %s\n input %q\n written %q", d, clip(string(c.Text)), clip(w1))
+	}
+	if w2 := t2.Newick(); w2 != w1 {
+		return fmt.Errorf("second write is not byte-identical\n first  %q\n second %q", clip(w1), clip(w2))
+	}
+	return nil
+}
+
+// outOfDomain tells why a parsed tree is outside the domain of C01 ("" if inside): see the
+// quantifier of the property (root and inner nodes with >= 2 children, non-empty tip names
+// without surrounding blanks, inner names not numeric-looking, values other than the -1
+// sentinel, p-value only with a support, at most one branch comment and only with a length).
+func outOfDomain(m *ref.Node) string {
+	why := ""
+	m.Walk(func(x, p *ref.Node) {
+		switch {
+		case !x.IsTip() && len(x.Ch) < 2:
+			why = "single-child node"
+		case x.IsTip() && (x.Name == "" || strings.TrimSpace(x.Name) != x.Name):
+			why = "empty or blank-padded tip name"
+		case x.IsTip() && (x.Sup != nil || x.Pv != nil):
+			why = "support on a tip"
+		case !x.IsTip() && x.Name != "" && (strings.TrimSpace(x.Name) != x.Name || numericLooking(x.Name)):
+			why = "numeric-looking or blank-padded inner name"
+		case !x.IsTip() && x.Name != "" && x.Sup != nil:
+			why = "name and support"
+		case x.Pv != nil && x.Sup == nil:
+			why = "p-value without support"
+		case len(x.BCom) > 1 || (len(x.BCom) == 1 && x.Len == nil):
+			why = "branch comments"
+		}
+		for _, v := range []*float64{x.Len, x.Sup, x.Pv} {
+			if v != nil && (*v == -1 || math.IsNaN(*v) || math.IsInf(*v, 0)) {
+				why = "sentinel or non-finite value"
+			}
+		}
+		for _, c := range append(append([]string{}, x.Com...), x.BCom...) {
+			if strings.Contains(c, "]") {
+				why = "comment with ]"
+			}
+		}
+	})
+	return why
+}
+
+func numericLooking(s string) bool {
+	if _, err := strconv.ParseFloat(s, 64); err == nil {
+		return true
+	}
+	if p := strings.Split(s, "/"); len(p) == 2 {
+		_, e1 := strconv.ParseFloat(p[0], 64)
+		_, e2 := strconv.ParseFloat(p[1], 64)
+		return e1 == nil && e2 == nil
+	}
+	return false
+}
+
+func textSeeds() []string {
+	s := []string{"(a,b);", "((a:1,b:2)0.9/0.01:3[&x],c:4)r[c];", "(a,(b,c)N:1e-5,d:+.5);", "[pre](a,b,c,d);", "( a , b\n) ;", "((a,b)-1:1,c)NaN;", "(a:1,b:0x1p-2);", "((a,b)1/2,c);", "((a,b)x/1,c);", "(a,b)[c]:1;", "((a,b)[c1][c2]:1[bc],c);"}
+	for _, a := range anchors() {
+		s = append(s, ref.Write(a.Model))
+	}
+	return s
+}
+
+func TestC01Text(t *testing.T) {
+	h.Run(t, h.Spec[TextCase]{
+		Property: "C01", Name: "text", Quick: 20000, Thorough: 400000,
+		Rule: "texts: seed Newick strings and reference-written generated trees, with 0-3 byte-level mutations (insert/delete/duplicate/replace of Newick tokens and bytes); whenever gotree's parser accepts the text, write->parse must give back the same tree (as far as text can show it) and write->parse->write must be byte-identical; non-trivial = the (mutated) text was accepted and has >= 3 tips",
+		Gen: func(t *rapid.T, thorough bool) TextCase {
+			var base string
+			if rapid.Bool().Draw(t, "seed") {
+				base = rapid.SampledFrom(textSeeds()).Draw(t, "seedtext")
+			} else {
+				base = ref.Write(gen.Tree(t, opts(false)))
+			}
+			d := []byte(base)
+			for i, n := 0, rapid.IntRange(0, 3).Draw(t, "nmut"); i < n; i++ {
+				d = docs.GenMutation(t).Apply(d, []byte("((x:1,y:2)0.5:1[&k=v],z)r;"))
+			}
+			return TextCase{Text: d, Show: strings.ToValidUTF8(string(d), "?")}
+		},
+		Check: checkText,
+		Classify: func(c TextCase) (bool, []string) {
+			if !utf8.Valid(c.Text) {
+				return false, []string{"invalid-utf8"}
+			}
+			t, err := gt.Parse(string(c.Text))
+			if err != nil || t == nil || t.Root() == nil {
+				return false, []string{"rejected"}
+			}
+			if len(t.Root().Neigh()) < 2 {
+				return false, []string{"accepted-single-child-root(out of domain)"}
+			}
+			if x, err := gt.Extract(t); err != nil || outOfDomain(x) != "" {
+				return false, []string{"accepted-out-of-domain"}
+			}
+			return len(t.Tips()) >= 3, []string{"accepted"}
+		},
+	})
+}
+
+func roundTripProp(rt *rapid.T) {
+	c := Case{gen.Tree(rt, opts(true))}
+	err, ok := h.Guarded(func() error { return checkRoundTrip(c) }, 20*time.Second)
+	if !ok {
+		err = fmt.Errorf("did not return within 20s")
+	}
+	if err != nil {
+		h.SaveFuzzFailure("C01", "roundtrip", c, err)
+		rt.Fatalf("%v", err)
+	}
+}
+
+func FuzzRoundTrip(f *testing.F) { f.Fuzz(rapid.MakeFuzz(roundTripProp)) }
+
+func FuzzText(f *testing.F) {
+	for _, s := range textSeeds() {
+		f.Add([]byte(s))
+	}
+	f.Fuzz(func(t *testing.T, data []byte) {
+		if len(data) > 1<<14 {
+			return
+		}
+		h.FuzzCheck(t, 15*time.Second, func() error { return checkText(TextCase{Text: data}) })
+	})
+}
+
+func TestCorpusToReplay(t *testing.T) {
+	if os.Getenv("VERIF_CORPUS_TARGET") == "FuzzRoundTrip" {
+		// re-run the rapid property on the saved bit stream; the failing case is saved by roundTripProp
+		b, err := h.CorpusArgs(os.Getenv("VERIF_CORPUS_FILE"))
+		if err != nil {
+			t.Fatal(err)
+		}
+		rapid.MakeFuzz(roundTripProp)(t, []byte(b[0]))
+		return
+	}
+	h.CorpusToReplay(t, "C01", map[string]struct {
+		Check string
+		Make  func(args []string) any
+	}{
+		"FuzzText": {"text", func(args []string) any {
+			return TextCase{Text: []byte(args[0]), Show: strings.ToValidUTF8(args[0], "?")}
+		}},
 	})
 }
